@@ -8,6 +8,7 @@
 #include <pika/init.hpp>
 #include <pika/runtime.hpp>
 #include <pika/thread.hpp>
+#include <pika/threading_base/detail/global_activity_count.hpp>
 
 #include <sched.h>
 #include <time.h>
@@ -347,12 +348,24 @@ namespace vf::rt {
         {
             th = std::thread([this] {
                 int quiet = 0;
+                double t_start = now_s();
+                double dump_after = std::getenv("VERIF_DEBUG_DUMP") ? std::atof(std::getenv("VERIF_DEBUG_DUMP")) : 0;
                 std::uint64_t first_phase = 0;
                 while (!stop.load())
                 {
                     struct timespec ts { 0, period_ms * 1000000l };
                     nanosleep(&ts, nullptr);
                     if (stop.load()) break;
+                    if (dump_after > 0 && now_s() - t_start > dump_after)
+                    {
+                        long long su = 0;
+                        std::string d;
+                        snapshot(su, d);
+                        std::fprintf(stderr, "DEBUG-DUMP %s phases=%llu active_retry=%llu :: %s\n", d.c_str(),
+                            (unsigned long long) G().phase_counter.load(), (unsigned long long) G().active_retry.load(),
+                            G().diagnose ? G().diagnose().c_str() : "");
+                        t_start = now_s();
+                    }
                     if (!G().main_waiting.load() || G().external_actors.load() != 0) { quiet = 0; continue; }
                     long long susp = 0;
                     std::string d;
@@ -366,6 +379,9 @@ namespace vf::rt {
                     ++quiet;
                     // re-check the guards after the snapshot
                     if (!G().main_waiting.load() || G().external_actors.load() != 0 || stop.load()) { quiet = 0; continue; }
+                    // no suspended task at all: the state is only stuck if the global activity count
+                    // leaked (otherwise the waiting main thread is merely about to notice)
+                    if (quiet >= K && susp == 0 && pika::threads::detail::get_global_activity_count() == 0) { quiet = 0; continue; }
                     if (quiet >= K)
                     {
                         std::string extra = G().diagnose ? G().diagnose() : std::string();
